@@ -191,7 +191,13 @@ pub fn run_tower<R>(
             .validate(block_hash)
             .unwrap()
     } else {
-        block_on(validate_best_block_header(derefed)).unwrap()
+        let tip = block_on(validate_best_block_header(derefed)).unwrap();
+        // main.rs (fix 28bf8ca): the starting point of a fresh bootstrap is persisted.
+        dbm.lock()
+            .unwrap()
+            .store_last_known_block(&tip.header.block_hash())
+            .unwrap();
+        tip
     };
     assert!(tip.height >= IRREVOCABLY_RESOLVED, "HARNESS: chain too short to boot");
 
@@ -206,7 +212,12 @@ pub fn run_tower<R>(
     let mut source_for_poller = node.clone();
     let mut poller = ChainPoller::new(&mut source_for_poller, Network::Regtest);
     let (responder, watcher) = {
-        let last_n_blocks = block_on(get_last_n_blocks(&mut poller, tip, IRREVOCABLY_RESOLVED as usize)).unwrap();
+        // No durable write happens while the last 100 blocks are downloaded: all ~200 crash points in there are
+        // equivalent to the one before, so they are not numbered.
+        crate::hooks::SUPPRESS_POINTS.with(|c| c.set(true));
+        let last_n_blocks = block_on(get_last_n_blocks(&mut poller, tip, IRREVOCABLY_RESOLVED as usize));
+        crate::hooks::SUPPRESS_POINTS.with(|c| c.set(false));
+        let last_n_blocks = last_n_blocks.unwrap();
         let responder = Arc::new(Responder::new(
             &last_n_blocks,
             tip.height,
